@@ -219,8 +219,9 @@ LitLeaves == {<<"1">>, <<"0">>, <<"1.5">>, <<"\"s\"">>, <<"true">>, <<"()">>, <<
 VarLeaves == {<<v>> : v \in {"x", "y", "s", "b", "a", "t", "r", "f", "c", "it", "u", "m", "w"}}
 ELeaves == {Leaf("E", ts) : ts \in LitLeaves \cup VarLeaves \cup {<<"struct", "{", "}">>}}
 \* reduced leaf set used for the three-child forms in the quick tier
-QLeaves == {Leaf("E", ts) : ts \in {<<"1">>, <<"1.5">>, <<"\"s\"">>, <<"true">>, <<"x">>, <<"()">>,
-                                     <<"[", "]">>, FnLit, <<"c">>, <<"it">>, <<"a">>, <<"u">>, <<"b">>}}
+QLeaves == {Leaf("E", ts) : ts \in {<<"1">>, <<"\"s\"">>, <<"x">>, <<"()">>, <<"[", "]">>, FnLit, <<"c">>,
+                                     <<"it">>, <<"a">>, <<"u">>, <<"b">>}}
+QSLeaves == {Leaf("S", ts) : ts \in {<<"break">>, <<"return">>}}
 
 ImportKinds == {"valid", "invalid", "illtyped", "missing", "dir", "binary"}
 ImportLeaf(kind) == Leaf("S", <<"import", "\"@" \o kind \o "\"">>)
